@@ -395,3 +395,51 @@ def tag_hist(tags):
         for x in t.split():
             h[x] = h.get(x, 0) + 1
     return h
+
+
+# ---------------------------------------------------------------------------------------
+# a property check composed of parts (one part = one modelled module)
+# ---------------------------------------------------------------------------------------
+
+def run_parts(ctx, parts, need_build=True, hooks=True):
+    """each part module provides NAME, BUILD_TARGETS, THEOREMS, SOURCES, MODELLED and
+    run_part(ctx, build); run_part appends (part, request, impl, model) to ctx.corr_broken for
+    requests where model and implementation differ although the implementation's own output
+    satisfies the executable property."""
+    ctx.corr_broken = []
+    build = Build(hooks=hooks) if need_build else None
+    if build:
+        ctx.cov["repo_build_s"] = round(build.wall, 1)
+    theorems, targets, srcs = [], [], []
+    for p in parts:
+        theorems += p.THEOREMS; targets += p.BUILD_TARGETS; srcs += p.SOURCES
+        ctx.trusted.append("modelled (%s): %s" % (p.NAME, p.MODELLED))
+    proved = ctx.prove(targets, theorems)
+    ctx.trusted.append("source fingerprints: %s" % source_fingerprint(srcs))
+    ctx.trusted.append("correspondence drivers under /verif/harness and lean/AldorVerif/Driver, python oracles in checks/parts")
+    if proved or os.path.exists(lean_driver()):
+        for p in parts:
+            before = len(ctx.corr_broken)
+            try:
+                p.run_part(ctx, build)
+            except BuildError:
+                raise
+            broken = ctx.corr_broken[before:]
+            if broken:
+                mod, ln, co, mo = broken[0]
+                ctx.violation("%s|correspondence" % p.NAME,
+                    "correspondence %s model<->implementation broken on %d request(s), e.g. `%s`: impl %s, model %s; "
+                    "the implementation's outputs satisfied the executable property on everything explored"
+                    % (p.NAME, len(broken), str(ln)[:300], str(co)[:300], str(mo)[:300]),
+                    {"kind": "correspondence-broken", "part": p.NAME,
+                     "first": {"request": ln, "impl": co, "model": mo}, "count": len(broken),
+                     "theorems_no_longer_tied": [t for _, t in p.THEOREMS]}, found_input=False)
+    ctx.cov.setdefault("rule", "request lines (corpus first, then exhaustive small cases, then seeded random); "
+                       "distinct_nontrivial counts distinct implementation answers")
+    if not proved:
+        report_proof_failure(ctx, "Lean obligations of " + ctx.prop)
+
+def show_replay(path):
+    r = json.load(open(path))
+    print(json.dumps(r, indent=1))
+    return 0
